@@ -16,12 +16,12 @@ from .c01 import rand_order
 class C02(Check):
     pid = "C02"
     title = "Quotient composed with the divisor refines the dividend"
-    level_text = ("Lean theorems quotient_sound_poly_any_sound_table / quotient_sound_poly_partial: any implementation of the divisor together with any implementation of the "
+    level_text = ("Lean theorems quotient_sound_poly_any_sound_table / quotient_sound_poly (real tactic table, every order): any implementation of the divisor together with any implementation of the "
                   "returned quotient meets the dividend, for every additional-input set, flag and tactic order over a sound tactic table (instantiation of the generic C05 "
                   "theorem with the proved polyhedral primitive specs; both branches of the refinement test and both try/except fall-backs are cases of the proof); "
                   "whole-operation correspondence with quotient_tactics; exact certified judge on the implementation's own quotient.")
     lean_modules = ["Pacti.Props.C02"]
-    theorems = ["Pacti.C02.quotient_sound_poly_any_sound_table", "Pacti.C02.quotient_sound_poly_partial"]
+    theorems = ["Pacti.C02.quotient_sound_poly_any_sound_table", "Pacti.C02.quotient_sound_poly"]
     quick_n = 300
     thorough_n = 10000
     judge_sample = 100
